@@ -114,6 +114,9 @@ def plan(tier, seed):
     q = tier == "quick"
     for n in entries.ALL_ENTRIES:
         items.append(dict(scenario="lost", params=dict(entry=n), bounds=dict(P=(2 if q else 3))))
+    for n in entries.FN_ENTRIES:
+        if n != "f_apply":
+            items.append(dict(scenario="lost", params=dict(entry=n, predone=True, nin=3), bounds=dict(P=1 if q else 2)))
     for n in STACKS2:
         deep = n in ("stack:retry+poll", "stack:poll+retry", "stack:retry+throttle", "stack:map+poll", "stack:flat_map+retry", "stack:timeout+map", "stack:cancel_on_shutdown+retry")
         items.append(dict(scenario="lost", params=dict(entry=n), bounds=dict(P=(1 if deep else 0) if q else (2 if deep else 1))))
